@@ -391,7 +391,7 @@ pub fn run(run: &Arc<Run>) {
         run.absorb(l);
         return;
     }
-    let n = run.cfg.by(6_000u64, 200_000);
+    let n = run.cfg.by(6_000u64, 600_000);
     run.par(n, |i, l| {
         let c = make_case(seed, i);
         l.count_s(format!("producer:{:?}", c.prod));
